@@ -58,6 +58,13 @@ func genTFrame(r *Rng, depth int, top bool) *tFrame {
 	if r.Chance(15) {
 		f.to = common.BytesToAddress([]byte{byte(1 + r.Intn(9))}) // a precompile address
 	}
+	if !top && r.Chance(6) {
+		// SELFDESTRUCT is announced to the tracers as a frame of its own: from the account to the beneficiary, the balance as value,
+		// no gas, no input, entered and left at once
+		f.typ, f.input, f.gas, f.value = vm.SELFDESTRUCT, []byte{}, 0, big.NewInt(int64(r.Intn(1000)))
+		f.output = []byte{}
+		return f
+	}
 	f.err = tErrs[r.Intn(len(tErrs))]
 	f.output = r.Bytes([]int{0, 0, 4, 36, 68}[r.Intn(5)])
 	f.gasUsed = uint64(r.Intn(int(f.gas)))
@@ -298,6 +305,10 @@ func canonFlat(l []interface{}) (string, string) {
 				o = res["code"]
 			}
 			result = jHexNat(res["gasUsed"]) + "/" + jBytes(o)
+		}
+		if m["type"] == "suicide" {
+			out = append(out, fmt.Sprintf("suicide:%s:%s:%s:%s:sub=%d:at=%s", jHexNat(act["address"]), jHexNat(act["refundAddress"]), jHexNat(act["balance"]), jErr(m["error"]), subs[ta], ta))
+			continue
 		}
 		if _, isAspect := act["aspect"]; isAspect {
 			out = append(out, fmt.Sprintf("aspect:%v:%s:%s:%s:%s:%s:%s:%s:%s:sub=%d:at=%s", act["callType"], jHexNat(act["aspect"]), jHexNat(act["from"]), jHexNat(act["to"]),
